@@ -85,8 +85,52 @@ let handle_xnorm words =
     Printf.sprintf "%s %s %d" (sh n') (sh l') (if r' then 1 else 0)
   | _ -> "badcase"
 
+(* ---- walk mind maxd post prune(ids or ~; r = root) tree ----
+   tree: L | G | B | D[id:tree,id:tree,...] ; events: E<id.id...>:<depth>:<0|1> / X<id.id...> (path from the root, "r" for the root) *)
+let parse_tree (s : string) : Walk.node =
+  let pos = ref 0 in
+  let peek () = s.[!pos] in
+  let adv () = incr pos in
+  let rec node () =
+    match peek () with
+    | 'L' -> adv (); Walk.Leaf
+    | 'G' -> adv (); Walk.Dang
+    | 'B' -> adv (); Walk.Bad
+    | 'D' -> adv (); adv ();   (* D[ *)
+      let ch = ref [] in
+      while peek () <> ']' do
+        if peek () = ',' then adv ();
+        let st = !pos in
+        while peek () <> ':' do adv () done;
+        let id = int_of_string (String.sub s st (!pos - st)) in
+        adv ();
+        let n = node () in
+        ch := (nat_of_int id, n) :: !ch
+      done;
+      adv ();
+      Walk.Dir (Stdlib.List.rev !ch)
+    | _ -> failwith "tree" in
+  node ()
+
+let show_path rp = if rp = [] then "r" else String.concat "." (Stdlib.List.rev_map (fun i -> string_of_int (int_of_nat i)) rp)
+
+let handle_walk words =
+  match words with
+  | [mind; maxd; post; prune; tree] ->
+    let c = { Walk.mind = nat_of_int (int_of_string mind); maxd = nat_of_int (int_of_string maxd); post = (post = "1") } in
+    let ps = list_of prune in
+    let root_pruned = Stdlib.List.mem "r" ps in
+    let ids = Stdlib.List.filter_map (fun x -> if x = "r" then None else Some (int_of_string x)) ps in
+    let p rp _ = match rp with [] -> root_pruned | id :: _ -> Stdlib.List.mem (int_of_nat id) ids in
+    let evs = Walk.walk c p (parse_tree tree) in
+    if evs = [] then "~" else
+    String.concat " " (Stdlib.List.map (function
+        | Walk.Ent (rp, d, b) -> Printf.sprintf "E%s:%d:%d" (show_path rp) (int_of_nat d) (if b then 1 else 0)
+        | Walk.Err rp -> "X" ^ show_path rp) evs)
+  | _ -> "badcase"
+
 let handlers : (string * (string list -> string)) list ref =
-  ref [ ("xread", handle_xread); ("xargs", handle_xargs); ("xrepl", handle_xrepl); ("xnorm", handle_xnorm) ]
+  ref [ ("xread", handle_xread); ("xargs", handle_xargs); ("xrepl", handle_xrepl); ("xnorm", handle_xnorm); ("walk", handle_walk) ]
 
 let () =
   try while true do
